@@ -194,8 +194,10 @@ func Setters(typ uint8) []Setter {
 			sc("SetReasonString", func(m *model.Packet) bool { return m.ReasonString == "" }, func(p mq.ControlPacket, m *model.Packet) { p.(sack).SetReasonString(m.ReasonString) }),
 			{
 				Name: "AddReasonCode", IsList: true,
-				Len:   func(m *model.Packet) int { return len(m.ReasonCodes) },
-				Apply: func(p mq.ControlPacket, m *model.Packet, i int) { p.(sack).AddReasonCode(mq.ReasonCode(m.ReasonCodes[i])) },
+				Len: func(m *model.Packet) int { return len(m.ReasonCodes) },
+				Apply: func(p mq.ControlPacket, m *model.Packet, i int) {
+					p.(sack).AddReasonCode(mq.ReasonCode(m.ReasonCodes[i]))
+				},
 			},
 			userProps(up),
 		}
@@ -218,11 +220,15 @@ func Setters(typ uint8) []Setter {
 		}
 		if DisconnectHasSetters() {
 			s = append(s,
-				sc("SetReasonString", func(m *model.Packet) bool { return m.ReasonString == "" }, func(p mq.ControlPacket, m *model.Packet) { interface{}(c(p)).(setReasonString).SetReasonString(m.ReasonString) }),
+				sc("SetReasonString", func(m *model.Packet) bool { return m.ReasonString == "" }, func(p mq.ControlPacket, m *model.Packet) {
+					interface{}(c(p)).(setReasonString).SetReasonString(m.ReasonString)
+				}),
 				sc("SetSessionExpiryInterval", func(m *model.Packet) bool { return m.SessionExpiry == 0 }, func(p mq.ControlPacket, m *model.Packet) {
 					interface{}(c(p)).(setSessionExpiry).SetSessionExpiryInterval(m.SessionExpiry)
 				}),
-				sc("SetServerReference", func(m *model.Packet) bool { return m.ServerReference == "" }, func(p mq.ControlPacket, m *model.Packet) { interface{}(c(p)).(setServerReference).SetServerReference(m.ServerReference) }),
+				sc("SetServerReference", func(m *model.Packet) bool { return m.ServerReference == "" }, func(p mq.ControlPacket, m *model.Packet) {
+					interface{}(c(p)).(setServerReference).SetServerReference(m.ServerReference)
+				}),
 			)
 		}
 		return s
